@@ -299,6 +299,7 @@ class Run:
         st["construct_ops" if phase == "construct" else "pair_ops"] += 1
         if sa is None or sb is None:
             return res, exc
+        ln = 0
         if exc is not None:
             st["exceptions"][exc] = st["exceptions"].get(exc, 0) + 1
             out = "!" + exc
@@ -316,14 +317,12 @@ class Run:
                 key = self.key_table.get(kt)
                 if key is None:
                     key = self.key_table[kt] = len(self.key_table)
-                self.case_line.append(ln)
             else:
                 key = -2
-        if exc is not None and tr:
-            self.case_line.append(0)
         modarg = str(b) if op == "mod" else "-"
         self.lines.append(f"numcheck {op} {modarg} | {sa} ; {sb} ; {out}")
         self.case_key.append(key)
+        self.case_line.append(ln)
         return res, exc
 
     # -- generator
